@@ -331,7 +331,88 @@ def _shard(shard, seed, tier):
     return part
 
 
+def _startup_case(detach, relroot, cwdname):
+    """The server as an administrator starts it: initialize() from a configuration file whose `root` is
+    relative (or absolute), in the foreground or detached (fork answers "child"), launched from `cwdname`.
+    Whatever start-up does with the working directory, requests are answered from the configured root."""
+    import configparser
+
+    import pygopherd.initialization as I
+    from pygopherd import logger
+
+    base = rig.fresh_dir("c01s")
+    site = os.path.join(base, "site")
+    docroot = os.path.join(site, "docroot")
+    rig.build_tree(docroot, {"f.txt": b"inside the root\n", "d": {"g.txt": b"g\n"}})
+    launch = {"site": site, "base": base}[cwdname]
+    rootopt = os.path.relpath(docroot, launch) if relroot else docroot
+    c = configparser.ConfigParser()
+    c.read(rig.SHIPPED_CONF)
+    for k, v in (("root", rootopt), ("mimetypes", rig.MIME_TYPES), ("port", "0"), ("interface", "127.0.0.1"), ("servertype", "ThreadingTCPServer"), ("detach", "yes" if detach else "no"),
+                 ("pidfile", os.path.join(base, "pid")), ("usechroot", "no"), ("servername", rig.SERVER_NAME)):
+        c.set("pygopherd", k, v)
+    for opt in ("setuid", "setgid"):
+        if c.has_option("pygopherd", opt):
+            c.remove_option("pygopherd", opt)
+    c.set("logger", "logmethod", "none")
+    conf = os.path.join(base, "pygopherd.conf")
+    with open(conf, "w") as f:
+        c.write(f)
+    old = {"cwd": os.getcwd(), "fork": os.fork, "setpgrp": os.setpgrp, "log": logger.log}
+    bad = []
+    server = None
+    try:
+        os.chdir(launch)
+        os.fork = lambda: 0
+        os.setpgrp = lambda: None
+        rig.reset_lazies()
+        try:
+            server = I.initialize(conf)
+        except BaseException as e:  # noqa
+            return [("startup-failed", "initialize() raised %s: %s" % (type(e).__name__, e))]
+        for proto, sel, want in (("gopher", "/f.txt", b"inside the root\n"), ("gopher", "/d/g.txt", b"g\n"), ("http", "/f.txt", b"inside the root\n"), ("gopher", "/d", b"g.txt")):
+            monitor.start()
+            r = rig.serve(server, *rig.request(proto, sel))
+            ev = monitor.stop()
+            if r.internal_error or want not in r.out:
+                bad.append(("root-lost", "detach=%s root=%r launched from %s: %s %s is answered %r (%s); the working directory is now %r" % (
+                    detach, rootopt, launch, proto, sel, r.out[:100], r.describe_error(), os.getcwd())))
+            outs = [e for e in ev if e[0] in ("open", "os.listdir", "os.scandir") and e[1] is not None and isinstance(e[1], (str, bytes))
+                    and not monitor.reached(e[1], os.getcwd()).startswith(os.path.realpath(docroot)) and monitor.reached(e[1], os.getcwd()).startswith(("/docroot", "/site", os.path.realpath(base)))]
+            if outs:
+                bad.append(("outside-root", "detach=%s root=%r: serving %s touched %r" % (detach, rootopt, sel, outs[:2])))
+    finally:
+        os.fork, os.setpgrp = old["fork"], old["setpgrp"]
+        logger.log = old["log"]
+        os.chdir(old["cwd"])
+        if server is not None:
+            try:
+                server.server_close()
+            except Exception:  # noqa
+                pass
+        rig._mime_inited = None
+        rig.reset_lazies()
+        rig.rmtree(base)
+    return bad
+
+
+def _shard_startup(shard, seed, tier):
+    part = core.Partial()
+    for detach, relroot, cwdname in shard:
+        bad = _startup_case(detach, relroot, cwdname)
+        part.evaluations += 4
+        part.transitions += 4
+        part.state("startup", detach, relroot, cwdname)
+        part.outcome("startup", detach, relroot, tuple(b[0] for b in bad))
+        for cls, det in bad:
+            part.violation("startup|detach=%d|relative-root=%d|from=%s|%s" % (detach, relroot, cwdname, cls), det, {"kind": "startup", "detach": detach, "relroot": relroot, "cwd": cwdname})
+    return part
+
+
 def replay(case):
+    if case.get("kind") == "startup":
+        bad = _startup_case(case["detach"], case["relroot"], case["cwd"])
+        return bad[0] if bad else None
     if case["kind"] != "req":
         return None
     env = _Env(case["handlers"], case["cwd"])
@@ -365,6 +446,7 @@ def run(ck):
     for handlers, cwdname in configs:
         for ch in core.chunks(order, per):
             shards.append((handlers, cwdname, ch))
+    ck.pmap(_shard_startup, [[(detach, relroot, cwdname)] for detach in (False, True) for relroot in (False, True) for cwdname in ("site", "base")])
     p = ck.pmap(_shard, shards)
     if p.extra.get("capped"):
         ck.caps.append("%d shard(s) aborted early after repeated request timeouts" % len(p.extra["capped"]))
